@@ -1180,6 +1180,40 @@ func fragHidden(g *Gen, n int, o *Out) {
 					if j := strings.Index(tv, ","); j >= 0 {
 						tv = tv[:j]
 					}
+					if f.Anonymous && unwrapIP(sv.Field(fi)).IsValid() && unwrapIP(sv.Field(fi)).Kind() == reflect.Struct {
+						// Go promotes the fields of an embedded struct; selectors do not: a field of the embedded
+						// struct named directly on the OUTER struct never resolves (whether the embedded struct is
+						// hidden or not), and never leaks the embedded content
+						es := unwrapIP(sv.Field(fi))
+						for ei := 0; ei < es.NumField() && ei < 4; ei++ {
+							ef := es.Type().Field(ei)
+							direct := false
+							for oi := 0; oi < sv.NumField(); oi++ {
+								of := sv.Type().Field(oi)
+								if !of.Anonymous && (of.Name == ef.Name || strings.Split(of.Tag.Get(tag), ",")[0] == ef.Name) {
+									direct = true
+								}
+							}
+							if direct {
+								continue
+							}
+							elit := "x"
+							if es.Field(ei).Kind() == reflect.String {
+								elit = es.Field(ei).String()
+							}
+							m := GMatch{Path: append(append([]string{}, p.Parts...), ef.Name), Op: []string{"eq", "ne", "empty"}[g.r.Intn(3)], Raw: elit, LitStyle: 2}
+							ht, _, okh := g.renderTop(m)
+							if !okh {
+								continue
+							}
+							h1 := evalText(o, opts, ht, d1)
+							h2 := evalText(o, opts, ht, d2)
+							o.count("promoted-name:" + norm(h1))
+							if h1 != h2 || (norm(h1) != "E" && h1 != "P") {
+								o.finding(Finding{Property: "C08", Kind: "failing-input", What: fmt.Sprintf("the field %s of the embedded struct %s, named on the outer struct, gives %s / %s (must not resolve; tag name %s)", ef.Name, f.Name, h1, h2, tag), Request: lastReq(o), Detail: ht})
+							}
+						}
+					}
 					if f.PkgPath == "" && tv != "-" {
 						continue
 					}
